@@ -316,6 +316,11 @@ class Effects:
             if j >= len(c["a"]):
                 out.add(("t", rec, fld) if rec else ("ty", ctype))
                 continue
+            an = f.d(c["a"][j])
+            while an is not None and an["k"] == "cast":
+                an = f.d(an["a"][0])
+            if an is not None and an["k"] == "int" and an.get("v") == 0:
+                continue  # a null pointer argument: nothing is stored through it
             pv = self.ptr(f, c["a"][j])
             if pv == "local":
                 if len(hops) == 1:
